@@ -166,6 +166,16 @@ static inline unsigned xv_dec_ndigits (unsigned long long v)
   return n;
 }
 
+/* Number of decimal digits of any 64-bit v: 19 comparisons with constants.  */
+static inline unsigned xv_dec_ndigits20 (unsigned long long v)
+{
+  unsigned n = 1;
+  unsigned long long lim = 10;
+  for (int i = 0; i < 19; i++)   /* XV_UNWIND 19 */
+    if (v >= lim) { n++; if (i < 18) lim *= 10; else lim = ~0ULL; }
+  return n;
+}
+
 static inline bool xv_is_digit (unsigned char c) { return c >= '0' && c <= '9'; }
 
 #endif /* XV_H */
